@@ -215,6 +215,11 @@ Definition represents (l : list value) (h : hist) : Prop := forall v, ccount l v
 (* no prefix retracts a value that is absent *)
 Definition valid_hist (h : hist) : Prop := forall p s, h = p ++ s -> forall v, 0 <= net p v.
 
+(* W reports, after every valid history with a non-empty net multiset, a value satisfying [spec] of
+   every list that represents that multiset *)
+Definition agg_correct (W : agg) (spec : list value -> outcome value -> Prop) : Prop :=
+  forall h l, valid_hist h -> represents l h -> l <> [] -> spec l (trig W (run W h)).
+
 (* executable: maintain a list representing the net multiset; None as soon as an absent value is retracted *)
 Fixpoint remove_class (l : list value) (v : value) : option (list value) :=
   match l with
@@ -278,6 +283,7 @@ Definition outcome_eqb (a b : outcome value) : bool :=
    n operations of relative error 2^-53 on partial sums bounded by A = sum of |x| over the whole history:
    |computed - exact| <= n 2^-53 A (1 + o(1)); the oracle allows (n + 3) 2^-52 A. *)
 Definition fl_max_units : Z := (2 ^ 53 - 1) * 2 ^ 2045.        (* MaxFloat64 in units of 2^-1074 *)
+Definition fl_overflow_units : Z := (2 ^ 54 - 1) * 2 ^ 2044.   (* MaxFloat64 + half an ulp: from here on a sum rounds to Inf *)
 Definition is_inf (bits : Z) (neg : bool) : bool :=
   (f_mag bits =? f_inf_mag) && Bool.eqb (f_neg bits) neg.
 
@@ -295,8 +301,8 @@ Definition float_close (n A S cnt : Z) (o : Z) : bool :=
   let tol := (n + 3) * A + cnt * 2 ^ 52 in
   if fl_finite o then Z.abs (fl_units o * cnt - S) * 2 ^ 52 <=? tol
   else if f_is_nan o then false
-  else (* +-Inf is right only when the exact sum leaves the float range *)
-       (fl_max_units * 2 ^ 52 <=? Z.abs S * 2 ^ 52 + tol) && Bool.eqb (f_neg o) (S <? 0).
+  else (* +-Inf is right only when the exact sum itself rounds to it *)
+       (fl_overflow_units <=? Z.abs S) && Bool.eqb (f_neg o) (S <? 0).
 
 Definition scr_sum_float_ok (n A : Z) (l : list value) (o : outcome value) : bool :=
   match o with
